@@ -6,6 +6,7 @@ Driver side of C10. Names are strings (an optional leading `@` is dropped); dige
   c10.verify cert=[(@name,h1),…] dir=none|[(@name,f,h1),(@name,d),(@name,l,0|1),…]
              range=(full)|(from,a)|(range,a,b)|(upto,b) last=N allow=0|1
   c10.digests served=[(@name,h1),…] last=N signed=[h1,…] certok=0|1
+  c10.pipeline served=… last=N signed=… certok=… dir=… range=… allow=…   (both, the second on the result of the first)
 -/
 namespace Handlers.C10
 open Proto Db
@@ -72,20 +73,41 @@ def parseEntry : Val → Option (String × Kind String)
 
 def showNames (l : List String) : String := "[" ++ String.intercalate "," (l.map ("@" ++ ·)) ++ "]"
 
+def showVerdict : Verdict String → String
+  | .accepted => "accepted"
+  | .rejected m t nv => s!"rejected missing={showNames m} tampered={showNames t} nonver={showNames nv}"
+  | .rangeError => "err range"
+  | .digesterError => "err digester"
+
+def parseDir (r : Req) : Option (Option (List (String × Kind String))) :=
+  match r.get? "dir" with
+  | some (.s "none") => some none
+  | some (.l es) => (es.mapM parseEntry).map some
+  | _ => none
+
 def verifyReq (r : Req) : Option String := do
   let cert ← (← r.list "cert").mapM parsePair
-  let dir ← match r.get? "dir" with
-    | some (.s "none") => some none
-    | some (.l es) => (es.mapM parseEntry).map some
-    | _ => none
+  let dir ← parseDir r
   let range ← parseRange (← r.get? "range")
   let last ← r.nat "last"
   let allow ← r.nat "allow"
-  pure <| match verify names cert dir range last (allow != 0) with
-    | .accepted => "accepted"
-    | .rejected m t nv => s!"rejected missing={showNames m} tampered={showNames t} nonver={showNames nv}"
-    | .rangeError => "err range"
-    | .digesterError => "err digester"
+  pure <| showVerdict (verify names cert dir range last (allow != 0))
+
+def showMap (f : List (String × String)) : String :=
+  "ok [" ++ String.intercalate "," (f.map fun e => s!"(@{e.1},{e.2})") ++ "]"
+
+/-- the served list through `download_and_verify_digests`, then the directory against the accepted list -/
+def pipelineReq (r : Req) : Option String := do
+  let served ← (← r.list "served").mapM parsePair
+  let last ← r.nat "last"
+  let signed ← (← r.list "signed").mapM Val.str?
+  let certok ← r.nat "certok"
+  let dir ← parseDir r
+  let range ← parseRange (← r.get? "range")
+  let allow ← r.nat "allow"
+  pure <| match verifyDigests names served last signed (certok != 0) with
+    | some f => showMap f ++ " | " ++ showVerdict (verify names f dir range last (allow != 0))
+    | none => "err"
 
 def digestsReq (r : Req) : Option String := do
   let served ← (← r.list "served").mapM parsePair
@@ -93,13 +115,14 @@ def digestsReq (r : Req) : Option String := do
   let signed ← (← r.list "signed").mapM Val.str?
   let certok ← r.nat "certok"
   pure <| match verifyDigests names served last signed (certok != 0) with
-    | some f => "ok [" ++ String.intercalate "," (f.map fun e => s!"(@{e.1},{e.2})") ++ "]"
+    | some f => showMap f
     | none => "err"
 
 def handle (r : Req) : Option String :=
   match r.op with
   | "c10.verify" => verifyReq r
   | "c10.digests" => digestsReq r
+  | "c10.pipeline" => pipelineReq r
   | _ => none
 
 end Handlers.C10
